@@ -125,7 +125,10 @@ def run(ctx):
     ctx.prove(rd / "Prop_C02.v", "Prop_C02.v (gap theorems over R)", "theorem-file", timeout=1800)
     # static tie: model = code text (regenerated + re-proved on every run); failing inputs are searched below
     nonshear_static.static_tie(ctx, rd, groups=nonshear_static.C02_GROUPS)
-    n = 30 if ctx.tier == "quick" else 1200
+    # shear clause: value_adiabatic of shear.py is the memoised value_isothermal (static tie, group adiabatic only)
+    from props import shear_static
+    shear_static.static_tie(ctx, rd, groups=("adiabatic",))
+    n = 30 if ctx.tier == "quick" else 4000
     cases, meta, consts = c01.build_cases(ctx, n)
     files = c01.shards(ctx, rd, cases, 20, tag="C02")
     res = ctx.run_shards(files, label="nonshear tie (gap, adiabatic)")
